@@ -349,12 +349,59 @@ def run_array(c):
     return out
 
 
+def probe():
+    """Which of the C08 repairs does this tree contain?  Four fixed inputs, one per modelled repair."""
+    out = {}
+    a = af.UniformPrior(0.0, 1.0)
+    m = af.Model(vclasses.G2, a=a, b=a.new())
+    try:
+        out["fix_db_id"] = db.Object.from_object(m)().prior_count == 2
+    except BaseException:  # noqa
+        out["fix_db_id"] = False
+    out["fix_loggaussian"] = "mean" in af.LogGaussianPrior(mean=0.5, sigma=0.25).dict()
+    m = af.Model(vclasses.G3)
+    m.add_assertion((m.x < m.y) < m.z)
+    try:
+        db.Object.from_object(m)
+        out["fix_chain"] = True
+    except AttributeError:
+        out["fix_chain"] = False
+    got = af.AbstractPriorModel.from_dict({"type": "dict", "arguments": {"k": 0.0, "j": 1.5}})
+    out["fix_falsy"] = "k" in got
+    return out
+
+
+def run_modified(c):
+    """Oracle-only stream: unary ModifiedPrior (-p) as a derived parameter."""
+    q = make_prior(c["prior"], [])
+    model = af.Model(vclasses.G2, a=q, b=-q)
+    out = {"count": [model.prior_count], "paths": [sorted(list(map(str, p)) for p in model.paths)], "steps": [],
+           "inst": [guarded(lambda: abstract_instance(model.instance_from_vector([0.25])))]}
+    cur = model
+    for st in c["steps"]:
+        try:
+            cur = trip(cur, st["form"], st.get("variant"))
+        except BaseException as e:  # noqa
+            out["steps"].append({"exc": type(e).__name__, "msg": str(e)[:200]})
+            break
+        out["steps"].append({"ok": True})
+        out["count"].append(cur.prior_count)
+        out["paths"].append(sorted(list(map(str, p)) for p in cur.paths))
+        m = cur
+        out["inst"].append(guarded(lambda: abstract_instance(m.instance_from_vector([0.25]))))
+    return out
+
+
 def main():
     payload = json.load(open(sys.argv[1]))
     out = []
     for c in payload["cases"]:
         try:
-            if c.get("kind") == "array":
+            if c.get("kind") == "probe":
+                out.append({"ok": probe()})
+            elif c.get("kind") == "modified":
+                out.append({"ok": run_modified(c)})
+            elif c.get("kind") == "array":
                 out.append({"ok": run_array(c)})
             else:
                 out.append({"ok": run_case(c)})
